@@ -545,7 +545,11 @@ func reloadExec(r *gen.R, useDotted bool, script func(x *reloadRun)) []run.Case 
 				}
 			}()
 			for _, h := range sortedHandles(side.cat) {
-				for _, is := range indexIssues(side.cat.Namespaces[h]) {
+				issues := indexIssues(side.cat.Namespaces[h])
+				if is, bad := idIndexIssue(h, side.cat.Namespaces[h]); bad {
+					issues = append(issues, is)
+				}
+				for _, is := range issues {
 					viols = append(viols, run.Violation{Property: "C15", What: "an index does not hold exactly the documents of its collection (within its partial filter) in key order",
 						Witness: "index-incoherent:" + is.reason, Req: req, Detail: clip(h.String()+" "+side.name+": "+is.detail, 700)})
 				}
